@@ -40,7 +40,7 @@ def build_bs(extra=False):
             raise H.Broken("no IR for " + n)
         ll.append(max(fs, key=os.path.getmtime))
     if extra:
-        for n in ('bincode', 'serde', 'emap', 'micromap', 'microstack', 'hashbrown'):
+        for n in ('bincode', 'serde', 'emap', 'micromap', 'microstack', 'hashbrown', 'xml_builder'):
             fs = sorted(glob.glob(os.path.join(deps, n + '-*.ll')))
             if not fs:
                 raise H.Broken("no IR for " + n)
